@@ -115,6 +115,9 @@ pub struct Cfg {
     pub entropy_seed: u64,
     pub aux_seed: u64,
     pub stack_size: usize,
+    /// a newly spawned thread starts running after a seeded latency of up to this many
+    /// microseconds (thread creation is not instantaneous: the spawner usually runs on first)
+    pub spawn_latency_us: u64,
 }
 
 impl Default for Cfg {
@@ -135,6 +138,7 @@ impl Default for Cfg {
             entropy_seed: 1,
             aux_seed: 2,
             stack_size: 1 << 20,
+            spawn_latency_us: 0,
         }
     }
 }
@@ -280,6 +284,9 @@ pub struct Proc {
     pub main_task: Option<TaskId>,
     pub stdout: String,
     pub stderr: String,
+    /// the process is out of file descriptors: accept() fails with EMFILE and the connection
+    /// stays in the accept queue (a failing system call that persists until lifted)
+    pub fd_exhausted: bool,
 }
 
 #[derive(Clone, Debug)]
@@ -708,6 +715,7 @@ impl World {
             main_task: None,
             stdout: String::new(),
             stderr: String::new(),
+            fd_exhausted: false,
         });
         self.record(Ev::ProcStart { proc: id, name: name.to_string(), argv, sut });
         id
@@ -715,13 +723,14 @@ impl World {
 
     pub fn new_task(&mut self, proc: ProcId, name: &str, is_main: bool, f: Box<dyn FnOnce()>) -> TaskId {
         let id = self.tasks.len();
+        let latency = if is_main || self.cfg.spawn_latency_us == 0 { 0 } else { self.aux_rng.below(self.cfg.spawn_latency_us * US + 1) };
         self.tasks.push(Task {
             id,
             name: name.to_string(),
             proc,
             is_main,
             state: TState::Runnable,
-            ready_at: self.now,
+            ready_at: self.now + latency,
             end: None,
             kill_pending: false,
             started: false,
@@ -1135,6 +1144,13 @@ impl World {
     }
 
     pub fn tcp_accept(&mut self, l: ListenId) -> io::Result<(ConnId, SocketAddr)> {
+        let owner = self.listeners[l].proc;
+        if self.procs[owner].fd_exhausted && !self.listeners[l].queue.is_empty() {
+            *self.fault_fired.entry("accept_emfile").or_insert(0) += 1;
+            self.record(Ev::TcpAccept { listener: l, conn: None, err: "EMFILE" });
+            // EMFILE has no ErrorKind of its own
+            return Err(io::Error::from_raw_os_error(24));
+        }
         if !self.listeners[l].queue.is_empty() && self.fault("accept_err", self.cfg.faults.accept_err) {
             self.record(Ev::TcpAccept { listener: l, conn: None, err: "ConnectionAborted" });
             // the aborted connection is gone, as with ECONNABORTED
